@@ -277,7 +277,8 @@ pub fn inline_equation(input: ParseString) -> ParseResult<ParagraphElement> {
   let (input, txt) = many0(tuple((is_not(equation_sigil),alt((backslash,text)))))(input)?;
   let (input, _) = equation_sigil(input)?;
   let mut txt = txt.into_iter().map(|(_,tkn)| tkn).collect();
-  let mut eqn = Token::merge_tokens(&mut txt).unwrap();
+  // an empty equation ($$$$) has no tokens to merge
+  let mut eqn = Token::merge_tokens(&mut txt).unwrap_or_default();
   eqn.kind = TokenKind::Text;
   Ok((input, ParagraphElement::InlineEquation(eqn)))
 }
@@ -775,8 +776,13 @@ pub fn code_block(input: ParseString) -> ParseResult<SectionElement> {
       match parse_grammar(&ebnf_text) {
         Ok(grammar_tree) => {return Ok((input, SectionElement::Grammar(grammar_tree)));},
         Err(err) => {
-          println!("Error parsing EBNF grammar: {:?}", err);
-          todo!();
+          // point at the first character of the block
+          let mut error = ParseError::new(input, "Error parsing EBNF grammar block");
+          let start = code_token.src_range.start;
+          let mut end = start;
+          end.col += 1;
+          error.cause_range = SourceRange { start, end };
+          return Err(nom::Err::Error(error));
         }
       }
     }
